@@ -176,3 +176,31 @@ impl vstd::std_specs::core::IndexSpecImpl<VisualPosition> for Buffer {
         self.rows <= self.lines@.len() && index.1 < self.rows && index.0 < self.row(index.1 as int).cells@.len()
     }
 }
+
+/// [C07,C15] rows of the view that an erase can touch at all
+pub open spec fn erase_touches_row(mode: EraseMode, row: int, r: int) -> bool {
+    match mode {
+        EraseMode::FromCursorToEndOfView => r >= row,
+        EraseMode::FromStartOfViewToCursor => r <= row,
+        EraseMode::WholeView => true,
+        _ => r == row,
+    }
+}
+
+/// [C07,C15] an erase leaves every row outside its row extent cell-for-cell unchanged
+pub proof fn lemma_erased_rows_unchanged(f: Buffer, o: Buffer, col: int, row: int, mode: EraseMode, pen: Pen)
+    requires
+        f.erased(o, col, row, mode, pen),
+        f.wf_geom(),
+        o.wf_geom(),
+    ensures
+        forall|r: int| 0 <= r < o.rows && !erase_touches_row(mode, row, r) ==> (#[trigger] f.row(r)).cells@ == o.row(r).cells@,
+{
+    assert forall|r: int| 0 <= r < o.rows && !erase_touches_row(mode, row, r) implies (#[trigger] f.row(r)).cells@ == o.row(r).cells@ by {
+        assert(f.row(r).cells@.len() == o.row(r).cells@.len());
+        assert forall|c: int| 0 <= c < o.cols implies f.row(r).cells@[c] == o.row(r).cells@[c] by {
+            assert(!erase_extent(mode, col, row, o.cols as int, c, r));
+        }
+        assert(f.row(r).cells@ =~= o.row(r).cells@);
+    }
+}
